@@ -552,6 +552,10 @@ func (g *rawGen) bundle() (map[string]string, []string) {
 	}
 	sh.WriteString("  // the second\n  KIND_SECOND = 2;\n}\n\n")
 	sh.WriteString("enum OnlyFromField {\n  ONLY_FROM_FIELD_UNSPECIFIED = 0;\n  ONLY_FROM_FIELD_X = 1;\n}\n\n")
+	if g.on() {
+		// the zero option is not offered: the exported enum starts at 1
+		sh.WriteString("enum Strict {\n  option (j5.ext.v1.enum).no_default = true;\n  STRICT_UNSPECIFIED = 0;\n  STRICT_ONE = 1;\n  STRICT_TWO = 2;\n}\n\nmessage UsesStrict {\n  Strict strict = 1;\n  repeated Strict stricts = 2;\n}\n\n")
+	}
 	sh.WriteString("enum Unreferenced {\n  UNREFERENCED_UNSPECIFIED = 0;\n  UNREFERENCED_Y = 1;\n}\n\n")
 	sh.WriteString("message Choice {\n  option (j5.ext.v1.message).oneof = {};\n  oneof type {\n    string text = 1;\n    Shared shared = 2;\n    Choice again = 3;\n  }\n}\n")
 
